@@ -152,6 +152,21 @@ fn absorb(sh: &Mutex<Shared>, ctx: Ctx) {
     }
 }
 
+/// resident set size of this process in GB (0 when /proc is not readable)
+pub fn rss_gb() -> f64 {
+    std::fs::read_to_string("/proc/self/statm")
+        .ok()
+        .and_then(|s| s.split_whitespace().nth(1).and_then(|p| p.parse::<f64>().ok()))
+        .map(|pages| pages * 4096.0 / 1e9)
+        .unwrap_or(0.0)
+}
+
+/// memory cap of one exploration process (VERIF_RSS_CAP_GB, default 9 GB): reaching it ends the exploration
+/// with `exhaustive: false` and the completed depth, never with a kill from outside
+pub fn rss_cap_gb() -> f64 {
+    std::env::var("VERIF_RSS_CAP_GB").ok().and_then(|v| v.parse().ok()).unwrap_or(9.0)
+}
+
 /// Explore `d` breadth-first up to `budget.max_depth`, evaluating `check` on every new state.
 pub fn explore<D: Driver>(
     d: &D,
@@ -229,31 +244,44 @@ pub fn explore<D: Driver>(
         if depth >= budget.max_depth {
             break;
         }
-        // expand
-        let succs: Vec<Vec<D::State>> = frontier
-            .par_iter()
-            .map(|s| d.successors(s, depth))
-            .collect();
+        // expand, in chunks: the successors of a whole level are never all in memory before de-duplication, and
+        // the state cap / the memory cap stop the expansion while it is still cheap
         let mut next = vec![];
-        for v in succs {
-            stats.transitions += v.len() as u64;
-            for s in v {
-                match d.key(&s) {
-                    Some(k) => {
-                        if seen.insert(k) {
-                            next.push(s)
+        let mut capped: Option<String> = None;
+        for chunk in frontier.chunks(50_000) {
+            let succs: Vec<Vec<D::State>> = chunk.par_iter().map(|s| d.successors(s, depth)).collect();
+            for v in succs {
+                stats.transitions += v.len() as u64;
+                for s in v {
+                    match d.key(&s) {
+                        Some(k) => {
+                            if seen.insert(k) {
+                                next.push(s)
+                            }
                         }
+                        None => next.push(s),
                     }
-                    None => next.push(s),
                 }
             }
+            if stats.states + next.len() as u64 > budget.max_states {
+                capped = Some(format!(
+                    "state cap {} hit expanding depth {depth}; depths <= {depth} fully covered",
+                    budget.max_states
+                ));
+                break;
+            }
+            let rss = rss_gb();
+            if rss > rss_cap_gb() {
+                capped = Some(format!(
+                    "memory cap hit expanding depth {depth} (resident set {rss:.1} GB > {:.0} GB); depths <= {depth} fully covered",
+                    rss_cap_gb()
+                ));
+                break;
+            }
         }
-        if stats.states + next.len() as u64 > budget.max_states {
+        if let Some(c) = capped {
             stats.exhaustive = false;
-            stats.cap_hit = Some(format!(
-                "state cap {} hit expanding depth {depth}; depths <= {depth} fully covered",
-                budget.max_states
-            ));
+            stats.cap_hit = Some(c);
             break;
         }
         frontier = next;
